@@ -6,8 +6,8 @@ from lib import SPEC
 BASE2 = {"CertKeys": '{"k1","k2"}', "EncKeys": '{"e1","e2"}', "Nonces": '{"n1","n2"}', "Tokens": '{"t1","t2"}',
          "AppStates": '{"s1"}', "NodeIds": '{"N1"}'}
 BASE3 = dict(BASE2, CertKeys='{"k1","k2","k3"}')
-BASE3S = dict(BASE3, AppStates='{"s1","s2"}', NodeIds='{"N1","N10"}')
-BASE3N = dict(BASE3, NodeIds='{"N1","N10"}')      # node ids one of which is a prefix of the other
+BASE3S = dict(BASE3, AppStates='{"s1","s2"}', NodeIds='{"N1","N10","n1"}')
+BASE3N = dict(BASE3, NodeIds='{"N1","N10","n1"}')      # node ids one of which is a prefix of another / differs from it only in letter case
 
 
 def gen_cfg(name, consts, classes, depth, sw=False, nidl=False, fallback="FetchAny", so=False, be="inmem"):
